@@ -24,6 +24,8 @@ def sym_leaves(v: Any, out: list[Any]) -> None:
     elif isinstance(v, SList):
         for x in v.items:
             sym_leaves(x, out)
+    elif hasattr(v, "pyvc_leaves"):
+        out.extend(v.pyvc_leaves())
 
 
 def int_literals(terms: list[Any], limit: int = 40) -> list[int]:
